@@ -226,7 +226,7 @@ def host_equals_controller(obs):
             cv = None if cv is None or i >= len(cv) else cv[i]
             if isinstance(v, str) or cv != v:
                 bad.append(dict(flush=k, handle=f"Future @{a}[{i}]", host=v, controller=cv))
-        for r, v in s["regs"].items():
+        for r, v in ([] if obs.get("late_reads") else s["regs"].items()):
             if r in seen_regs:
                 continue
             seen_regs.add(r)
@@ -278,6 +278,8 @@ def run_batch(ctx, tag, items, shard=60):
             s_bad.append(idx[i])
         for i, code in zip(ls[1][0::2], ls[1][1::2]):
             b_bad[idx[i]] = code
+    # programs outside Sdk.Lower (marked by the caller): behavioural oracle only
+    s_bad = [i for i in s_bad if not items[i].get("no_struct")]
     return sorted(s_bad), b_bad, untrans
 
 
